@@ -47,7 +47,9 @@ FdA(n, t, args) == [Fd(n, t) EXCEPT !.args = args]
 Ar(n, t)        == [name |-> n, type |-> t, hasDef |-> FALSE, def |-> NullV, desc |-> "", nil |-> FALSE]
 ArD(n, t, d)    == [name |-> n, type |-> t, hasDef |-> TRUE, def |-> d, desc |-> "", nil |-> FALSE]
 Ev(n, ik, iv)   == [name |-> n, internal |-> iv, ik |-> ik, dep |-> "", desc |-> "", nil |-> FALSE]
-EI(tok)  == [k |-> "eint", v |-> tok]
+\* an enum's internal value: token and Go kind (two values of one enum may print alike, 1 and "1")
+EI(tok)  == [k |-> "eint", v |-> tok, n |-> IF tok \in {"0", "1"} THEN "int" ELSE "str"]
+EIs(tok) == [k |-> "eint", v |-> tok, n |-> "str"]
 CuV(s)   == [k |-> "cu", v |-> s]
 N(n)     == TNamed(n)
 OF(n, v) == [n |-> n, v |-> v]
@@ -92,7 +94,8 @@ BaseTypes ==
     K |-> [TDef("K", "OBJECT") EXCEPT !.ifaces = <<"I">>, !.fields = << IX >>],
     U |-> [TDef("U", "UNION") EXCEPT !.members = <<"A", "B">>],
     V |-> [TDef("V", "UNION") EXCEPT !.members = <<"C", "D">>],
-    E |-> [TDef("E", "ENUM") EXCEPT !.values = << Ev("ZERO", "int", "0"), [Ev("ONE", "int", "1") EXCEPT !.dep = "old"] >>],
+    E |-> [TDef("E", "ENUM") EXCEPT !.values = << Ev("ZERO", "int", "0"), [Ev("ONE", "int", "1") EXCEPT !.dep = "old"],
+                                                  Ev("UNO", "str", "1") >>],   \* prints like ONE's internal value
     F |-> [TDef("F", "ENUM") EXCEPT !.values = << Ev("RED", "str", "RED"), Ev("GREEN", "str", "green") >>],
     G |-> [TDef("G", "ENUM") EXCEPT !.values = << Ev("X", "str", "X") >>],
     In |-> [TDef("In", "INPUT_OBJECT") EXCEPT !.inputs =
@@ -149,7 +152,8 @@ ArgAlts ==
     AD("String=ab", N("String"), StrV("a b")), AD("String=empty", N("String"), StrV("")),
     AD("Boolean=false", N("Boolean"), BoolV(FALSE)), AD("Boolean=true", N("Boolean"), BoolV(TRUE)),
     AD("ID=x1", N("ID"), StrV("x1")),
-    AD("E=ZERO", N("E"), EI("0")), AD("NE=ONE", TNN(N("E")), EI("1")),
+    AD("E=ZERO", N("E"), EI("0")), AD("NE=ONE", TNN(N("E")), EI("1")), AD("E=UNO", N("E"), EIs("1")),
+    AD("LE=[UNO,ONE]", TList(N("E")), ListV(<< EIs("1"), EI("1") >>)),
     AD("LE=[ZERO,ONE]", TList(N("E")), ListV(<< EI("0"), EI("1") >>)),
     AD("F=RED", N("F"), EI("RED")), AD("F=GREEN", N("F"), EI("green")),
     AD("Cu=x", N("Cu"), CuV("x")),
